@@ -3,7 +3,7 @@
     exponent (weight of rank d = 1 / d^alpha). *)
 From Coq Require Import QArith.
 From DynVerif Require Import Base Graph Derived Annotate Paths Conformity Spec Rename.
-From DynVerif.proofs Require Import C01Facts ConfFacts RenameCore RenamePaths RenameConf RenameInjCore RenameInjPaths RenameInjConf.
+From DynVerif.proofs Require Import C01Facts DerivedFacts ConfFacts RenameCore RenamePaths RenameConf RenameInjCore RenameInjPaths RenameInjConf ConfEndToEnd.
 #[local] Open Scope Z_scope.
 
 (** every score lies in [-1, 1] *)
@@ -57,6 +57,55 @@ Theorem C20_sliding : forall dg delta alphas tabs psize ptype,
                      then [(t + delta, delta_conformity dg t delta alphas tabs psize ptype)] else []) (snapshot_ids dg).
 Proof. exact sliding_pointwise. Qed.
 Print Assumptions C20_sliding.
+
+(** The same three facts about the RESULT of delta_conformity (every score of every alpha, profile and node): *)
+Theorem C20_result_bounded : forall dg start delta alphas tabs psize ptype l,
+  (forall a, In a alphas -> 0 <= a) ->
+  delta_conformity dg start delta alphas tabs psize ptype = ConfOk l ->
+  forall alpha profs scores n q, In (alpha, profs) l -> In scores profs -> In (n, q) scores -> (-1 <= q <= 1)%Q.
+Proof. exact conformity_bounded. Qed.
+Print Assumptions C20_result_bounded.
+(** renaming label values along an injective h fixing the default value 0 (or any injective h when every node of the
+    graph is labelled: [C20_result_label_renaming_total]) leaves the whole result unchanged *)
+Theorem C20_result_label_renaming : forall (h : Z -> Z) dg start delta alphas tabs psize ptype,
+  (forall a b, h a = h b -> a = b) -> h 0 = 0 ->
+  delta_conformity dg start delta alphas (map (fun tab => map (fun nv => (fst nv, h (snd nv))) tab) tabs) psize ptype
+  = delta_conformity dg start delta alphas tabs psize ptype.
+Proof. exact conformity_label_renaming. Qed.
+Print Assumptions C20_result_label_renaming.
+Theorem C20_result_label_renaming_total : forall (h : Z -> Z) dg start delta alphas tabs psize ptype,
+  (forall a b, h a = h b -> a = b) -> Good dg ->
+  (forall tab n, In tab tabs -> In n (node_ids dg) -> In n (map fst tab)) ->
+  delta_conformity dg start delta alphas (map (fun tab => map (fun nv => (fst nv, h (snd nv))) tab) tabs) psize ptype
+  = delta_conformity dg start delta alphas tabs psize ptype.
+Proof. exact conformity_label_renaming_total_source. Qed.
+Print Assumptions C20_result_label_renaming_total.
+(** one shared label: every score is 1 or 0 -- 1 exactly for the nodes one of whose time-respecting paths in the
+    window ends in another node *)
+Theorem C20_result_same_label : forall dg start delta alphas tabs psize ptype l,
+  (forall a, In a alphas -> 0 <= a) ->
+  (forall tab n m, In tab tabs -> lab tab n = lab tab m) ->
+  delta_conformity dg start delta alphas tabs psize ptype = ConfOk l ->
+  exists g sp, conf_setup dg start delta g sp /\
+  forall alpha profs scores n q, In (alpha, profs) l -> In scores profs -> In (n, q) scores ->
+    ((q == 1)%Q <-> exists p, In p (paths_of n sp) /\ last_node p <> n) /\
+    ((q == 0)%Q <-> ~ exists p, In p (paths_of n sp) /\ last_node p <> n) /\
+    (forall s e, all_time_respecting_paths g s e None = Some sp -> time_respecting_paths g n None s e = PathsOk (paths_of n sp)).
+Proof.
+  intros dg start delta alphas tabs psize ptype l Ha Hl H.
+  destruct (conformity_same_label_which dg start delta alphas tabs psize ptype l Ha Hl H) as (g & sp & Hs & Hall).
+  exists g, sp. split; [exact Hs|]. intros alpha profs scores n q H1 H2 H3.
+  destruct (Hall alpha profs scores n q H1 H2 H3) as (A & B & C & D).
+  split; [rewrite A; exact C|]. split; [|exact D].
+  rewrite B. rewrite <- C. split; [intros E F; apply F; exact E|].
+  intros E. destruct (t_distances ptype n (paths_of n sp)) eqn:Et; [reflexivity|]. exfalso. apply E. discriminate.
+Qed.
+Print Assumptions C20_result_same_label.
+Theorem C20_result_sliding_bounded : forall dg delta alphas tabs psize ptype, (forall a, In a alphas -> 0 <= a) ->
+  forall t l, In (t, ConfOk l) (sliding_delta_conformity dg delta alphas tabs psize ptype) ->
+  forall alpha profs scores n q, In (alpha, profs) l -> In scores profs -> In (n, q) scores -> (-1 <= q <= 1)%Q.
+Proof. exact conformity_sliding_bounded. Qed.
+Print Assumptions C20_result_sliding_bounded.
 
 (** invariance under renaming NODE ids, for EVERY injective renaming f: the graph built by the renamed calls, with
     the label tables re-keyed, gets the original result with the node keys renamed, score for score (Leibniz
